@@ -71,3 +71,25 @@ Theorem C04_nothing_wedged :
     exists more, p_done (fold_left pipe_step (sched ++ more) p) = sent.
 Proof. exact everything_sent_can_be_delivered. Qed.
 Print Assumptions C04_nothing_wedged.
+
+(* Outbound. The writer writes each hand-off whole and in order; when the transport takes only part
+   of a write (the deadline passes because the peer stopped reading, the connection breaks) the
+   connection is cancelled and nothing more is written. Without a failure the stream is the
+   hand-offs; with one, every earlier hand-off whole, then the bytes taken of the failing one; in
+   every case a prefix of the hand-offs in order -- nothing interleaved, repeated or written behind a
+   torn message. *)
+Theorem C04_outbound_complete :
+  forall msgs, writer msgs None = concat msgs.
+Proof. exact writer_complete. Qed.
+Print Assumptions C04_outbound_complete.
+
+Theorem C04_outbound_failed_write :
+  forall msgs k keep, (k < length msgs)%nat ->
+    writer msgs (Some (k, keep)) = concat (firstn k msgs) ++ firstn keep (nth k msgs nil).
+Proof. exact writer_failed. Qed.
+Print Assumptions C04_outbound_failed_write.
+
+Theorem C04_outbound_prefix :
+  forall msgs f, exists rest, concat msgs = writer msgs f ++ rest.
+Proof. exact writer_prefix. Qed.
+Print Assumptions C04_outbound_prefix.
